@@ -1,4 +1,5 @@
 import LanceModel.C40.MergeWSLemmas
+import LanceModel.C40.WfLemmas
 /-
 C40 — Arrow helper transformations preserve values.
 
@@ -23,6 +24,11 @@ theorem slice_spec (a : Arr) (o l : Nat) (hw : wf a = true) (h : o + l ≤ a.len
 theorem gather_spec (a : Arr) (idx : List Nat) (hw : wf a = true) (hi : ∀ i ∈ idx, i < a.len) :
     logical (gather a idx) = idx.map (fun i => (logical a).getD i .null) :=
   logical_gather a idx hw hi
+
+/-- … and returns a well-formed array (so do take, filter, `deep_copy_array_sliced`, which are gathers) -/
+theorem gather_wf (a : Arr) (idx : List Nat) (hw : wf a = true) (hi : ∀ i ∈ idx, i < a.len) :
+    wf (gather a idx) = true ∧ (gather a idx).len = idx.length :=
+  ⟨wf_gather a idx hw hi, gather_len a idx⟩
 
 /-! ### deepcopy.rs -/
 
@@ -82,6 +88,12 @@ theorem filter_garbage_nulls_clean (lg : Bool) (off len : Nat) (n : Nulls) (offs
       ∧ (∀ i, i < len → validAt (some n) i = false → offs'.getD (i + 1) 0 = offs'.getD i 0)
       ∧ offs'.getD len 0 = child'.len :=
   fgn_clean lg off len n offs child hw hlen
+
+/-- `filter_garbage_nulls` returns a well-formed array (every theorem here applies to its result again) -/
+theorem filter_garbage_nulls_wf (lg : Bool) (off len : Nat) (nulls : Option Nulls) (offs : List Nat) (child : Arr)
+    (hw : wf (.list lg off len nulls offs child) = true) :
+    wf (filterGarbageNulls (.list lg off len nulls offs child)) = true :=
+  wf_fgn lg off len nulls offs child hw
 
 /-! ### struct.rs -/
 
